@@ -239,6 +239,8 @@ def build_family(setup, shift=0):
     ds = B.build_designspace(axis_specs(setup), sources, rules=rules,
                              lib={"public.skipExportGlyphs": ["only_default"], "ds.key": {"l": [1]}},
                              module=module)
+    if setup.get("order") == "reversed":
+        ds.sources.reverse()
     return ds
 
 
@@ -297,6 +299,8 @@ class Reference:
 
     def __init__(self, setup, ds):
         axes, masters = TOPOLOGIES[setup["topo"]]
+        if setup.get("order") == "reversed":
+            masters = list(reversed(masters))
         self.axis_order = [a for a, _ in axes]
         self.bounds = {a: (0, de, 1000) for a, de in axes}
         self.default_idx = [i for i, m in enumerate(masters) if "default" in m[2]][0]
@@ -652,6 +656,10 @@ class C19(Property):
         for topo, rnd in itertools.product(("2m", "3mc", "3mi", "4c", "2s"), (0, 1)):
             out.append([{"mode": "inst", "topo": topo, "map": 0, "round": rnd, "rules": "none",
                          "scribble": 0, "prelude": "reversed"}])
+            # ... and the other way round (whatever a process-wide cache holds when the state is
+            # reached, one of the two families disagrees with it)
+            out.append([{"mode": "inst", "topo": topo, "map": 0, "round": rnd, "rules": "none",
+                         "scribble": 0, "prelude": "reversed", "order": "reversed"}])
         if b["defcon_sources"]:
             for topo, rnd, rules in itertools.product(TOPO_NAMES, (0, 1), ("none", "chain")):
                 out.append([{"mode": "inst", "topo": topo, "map": 1, "round": rnd, "rules": rules,
